@@ -19,6 +19,7 @@ type oblStat struct{ Proved, Failed, Unknown int }
 type Violation struct {
 	Label   string
 	Case    string
+	Fine    string
 	Job     Job
 	Model   map[string]ModelVal
 	Choices map[string]int
@@ -99,7 +100,7 @@ func (cr *CheckRun) absorb(jobs []Job, res []*JobResult) {
 				cr.note(p.Status + ": " + p.Why + " [" + j.Fn + " " + j.Tag + "]")
 			case "panic":
 				if cr.owner("nopanic") {
-					cr.fails = append(cr.fails, Violation{Label: "nopanic", Case: j.Tag, Job: j, Model: p.PanicModel, Choices: p.Choices, Panic: true, Why: p.Why})
+					cr.fails = append(cr.fails, Violation{Label: "nopanic", Case: caseOf(j), Fine: j.Tag, Job: j, Model: p.PanicModel, Choices: p.Choices, Panic: true, Why: p.Why})
 					cr.stat("nopanic").Failed++
 				} else {
 					cr.note("panic on a feasible path (owned by C18): " + p.Why + " [" + j.Fn + " " + j.Tag + "]")
@@ -118,7 +119,7 @@ func (cr *CheckRun) absorb(jobs []Job, res []*JobResult) {
 					st.Proved++
 				case "failed":
 					st.Failed++
-					cr.fails = append(cr.fails, Violation{Label: a.Label, Case: j.Tag, Job: j, Model: a.Model, Choices: a.Choices})
+					cr.fails = append(cr.fails, Violation{Label: a.Label, Case: caseOf(j), Fine: j.Tag, Job: j, Model: a.Model, Choices: a.Choices})
 				default:
 					st.Unknown++
 					cr.note("solver unknown on obligation " + a.Label + " [" + j.Tag + "]")
@@ -126,6 +127,13 @@ func (cr *CheckRun) absorb(jobs []Job, res []*JobResult) {
 			}
 		}
 	}
+}
+
+func caseOf(j Job) string {
+	if j.Case != "" {
+		return j.Case
+	}
+	return j.Tag
 }
 
 func (cr *CheckRun) stat(l string) *oblStat {
@@ -224,7 +232,7 @@ func (cr *CheckRun) finish() int {
 		}
 		violations++
 		fmt.Printf("VIOLATION property=%s replay=%s\n", cr.ID, dir)
-		fmt.Printf("  obligation %s\n  case %s\n", v.Label, v.Case)
+		fmt.Printf("  obligation %s\n  case %s (%d failing instances, first: %s)\n", v.Label, v.Case, len(g.vs), v.Fine)
 		if v.Why != "" {
 			fmt.Printf("  %s\n", v.Why)
 		}
